@@ -563,7 +563,7 @@ def config_invariants(repo, invariants, sidecar_path, config_rel='src/generators
     return out
 
 
-def result_through_sites(fe, qual, acc, result_index=0, allowed_callees=()):
+def result_through_sites(fe, qual, acc, result_index=0, allowed_callees=(), every_return=True):
     """result[<function>]: the site obligations at `acc.append(...)` speak about the function's RESULT only if the result is
     that accumulator: every `return` of the function (nested functions excluded) returns `acc` (as element `result_index` of a
     tuple, or alone), `acc` is bound exactly once, to an empty list, and is changed in place only by `.append` (the site) or
@@ -581,7 +581,7 @@ def result_through_sites(fe, qual, acc, result_index=0, allowed_callees=()):
             yield from own_nodes(ch)
     binds = 0
     for n in own_nodes(fn):
-        if isinstance(n, ast.Return):
+        if isinstance(n, ast.Return) and every_return:
             v = n.value
             el = v.elts[result_index] if isinstance(v, ast.Tuple) and len(v.elts) > result_index else v
             if not (isinstance(el, ast.Name) and el.id == acc):
@@ -598,7 +598,9 @@ def result_through_sites(fe, qual, acc, result_index=0, allowed_callees=()):
         for t in targets:
             for e in ast.walk(t):
                 if isinstance(e, ast.Name) and e.id == acc:
-                    if isinstance(n, ast.Assign) and t is e and isinstance(n.value, ast.List) and not n.value.elts:
+                    if isinstance(n, ast.Assign) and t is e and (
+                            (isinstance(n.value, ast.List) and not n.value.elts)
+                            or (isinstance(n.value, ast.Dict) and not n.value.keys)):
                         binds += 1
                     else:
                         bad.append('line %d: %s is rebound / written other than by append: %s' % (n.lineno, acc, ast.unparse(n)[:60]))
@@ -612,8 +614,9 @@ def result_through_sites(fe, qual, acc, result_index=0, allowed_callees=()):
             if passed and callee not in allowed_callees and callee not in ('len', 'list', 'tuple', 'enumerate', 'zip', 'str'):
                 bad.append('line %d: %s is passed to %s(...)' % (n.lineno, acc, callee))
     if binds != 1:
-        bad.append('%s is bound to an empty list %d times (expected once)' % (acc, binds))
-    return [dict(name='%s/result[is-the-accumulator-filled-at-the-sites]' % qual, function=qual, lineno=fn.lineno, kind='proof',
+        bad.append('%s is bound to an empty list / dict %d times (expected once)' % (acc, binds))
+    return [dict(name='%s/result[%s]' % (qual, 'is-the-accumulator-filled-at-the-sites' if every_return
+                                          else '%s-is-filled-only-at-the-sites' % acc), function=qual, lineno=fn.lineno, kind='proof',
                  status='proved' if not bad else 'failed', secs=0, backend='syntactic', reason='; '.join(bad[:3]))]
 
 
@@ -873,3 +876,87 @@ def switch_wiring_obligations(repo):
                         reason='' if r == z3.unsat else 'cfg.%s.%s is not %s for the flags %s' % (
                             key[0], key[1], 'the flag' if kind == 'copy' else '0 when the flag is given', model)))
     return out
+
+
+PICKLE_HOOKS = ('__getstate__', '__setstate__', '__reduce__', '__reduce_ex__', '__getnewargs__', '__getnewargs_ex__',
+                '__copy__', '__deepcopy__')
+
+
+def pickle_hook_census(fe, subdirs=('src',)):
+    """pickle-hooks[src]: the trusted round-trip law of the dump (unpickling a pickled program gives an object graph with the
+    same classes and the same instance dictionaries) is the DEFAULT behaviour of pickle; it holds for the IR only as long as
+    no class customises what is pickled or how it is rebuilt: no class under src/ defines __getstate__ / __setstate__ /
+    __reduce__ / __reduce_ex__ / __getnewargs__ / __copy__ / __deepcopy__ or __slots__, and no module registers a reducer
+    (copyreg).  One obligation per offending definition would hide the clean state, so the census is ONE obligation that
+    lists what it found.  Syntactic, from the real AST of every module under src/."""
+    import os
+    bad = []
+    nfiles = 0
+    for sd in subdirs:
+        for root, _, files in os.walk(os.path.join(fe.repo, sd)):
+            for f in sorted(files):
+                if not f.endswith('.py'):
+                    continue
+                path = os.path.join(root, f)
+                try:
+                    tree = ast.parse(open(path).read())
+                except SyntaxError as e:
+                    bad.append('%s: does not parse (%s)' % (os.path.relpath(path, fe.repo), e))
+                    continue
+                nfiles += 1
+                rel = os.path.relpath(path, fe.repo)
+                for n in ast.walk(tree):
+                    if isinstance(n, ast.ClassDef):
+                        for s in n.body:
+                            if isinstance(s, (ast.FunctionDef, ast.AsyncFunctionDef)) and s.name in PICKLE_HOOKS:
+                                bad.append('%s:%d: class %s defines %s' % (rel, s.lineno, n.name, s.name))
+                            if isinstance(s, (ast.Assign, ast.AnnAssign)):
+                                tg = s.targets if isinstance(s, ast.Assign) else [s.target]
+                                for t in tg:
+                                    if isinstance(t, ast.Name) and (t.id == '__slots__' or t.id in PICKLE_HOOKS):
+                                        bad.append('%s:%d: class %s sets %s' % (rel, s.lineno, n.name, t.id))
+                    elif isinstance(n, (ast.Import, ast.ImportFrom)):
+                        names = [a.name for a in n.names] + ([n.module] if isinstance(n, ast.ImportFrom) and n.module else [])
+                        if any(x and x.split('.')[0] == 'copyreg' for x in names):
+                            bad.append('%s:%d: copyreg is imported' % (rel, n.lineno))
+    if nfiles == 0:
+        bad.append('no module found under %s' % (subdirs,))
+    return [dict(name='src/pickle-hooks[no-class-customises-its-pickled-state]', function='src', lineno=0, kind='proof',
+                 status='proved' if not bad else 'failed', secs=0, backend='syntactic (%d modules)' % nfiles,
+                 reason='; '.join(bad[:4]))]
+
+
+def invented_declaration_census(fe, modname, const_name='RET',
+                                decl_classes=('VariableDeclaration', 'FunctionDeclaration', 'ParameterDeclaration',
+                                              'FieldDeclaration', 'ClassDeclaration')):
+    """invented-declarations[<module>]: the analysis builds declaration objects that are NOT part of the program ("virtual"
+    variables standing for a block's value).  The mutations tell them apart from real declarations by their reserved name
+    (`n.decl.name == RET`), so every declaration object the analysis module constructs must carry exactly that name: its
+    first argument is the module constant RET itself, and RET is bound once at module level to a string literal.  A renamed
+    virtual declaration would become a mutation candidate although writing to it changes nothing in the program (C04: an
+    injection would be reported for an unchanged program).  Syntactic, from the real AST."""
+    m = fe.module(modname)
+    import os
+    path = os.path.join(fe.repo, *modname.split('.')) + '.py'
+    tree = ast.parse(open(path).read())
+    bad = []
+    binds = [s for s in tree.body if isinstance(s, ast.Assign)
+             and any(isinstance(t, ast.Name) and t.id == const_name for t in s.targets)]
+    if len(binds) != 1 or not (isinstance(binds[0].value, ast.Constant) and isinstance(binds[0].value.value, str)):
+        bad.append('%s is not bound exactly once at module level to a string literal' % const_name)
+    for n in ast.walk(tree):
+        if isinstance(n, (ast.Assign, ast.AugAssign)) and n not in binds:
+            tg = n.targets if isinstance(n, ast.Assign) else [n.target]
+            if any(isinstance(t, ast.Name) and t.id == const_name for t in tg):
+                bad.append('line %d: %s is re-bound' % (n.lineno, const_name))
+        if isinstance(n, ast.Call):
+            f = n.func
+            nm = f.attr if isinstance(f, ast.Attribute) else (f.id if isinstance(f, ast.Name) else None)
+            if nm in decl_classes:
+                a0 = n.args[0] if n.args else next((k.value for k in n.keywords if k.arg == 'name'), None)
+                if not (isinstance(a0, ast.Name) and a0.id == const_name):
+                    bad.append('line %d: %s(...) is named %s, not %s' % (
+                        n.lineno, nm, ast.unparse(a0)[:40] if a0 is not None else '?', const_name))
+    return [dict(name='%s/invented-declarations[carry-the-reserved-name-%s]' % (modname, const_name), function=modname,
+                 lineno=0, kind='proof', status='proved' if not bad else 'failed', secs=0, backend='syntactic',
+                 reason='; '.join(bad[:3]))]
